@@ -4,7 +4,7 @@
      - returns a non-OK status, has had exactly the first `budget` bytes of bs accepted and leaves
        the stream exhausted when budget < |bs| (so that every later write of >= 1 byte fails too).
    Statements only; proofs in PrimFacts, ObjFacts, VaFacts, SliceFacts, FileFacts. *)
-From Sbdf Require Import File PrimFacts SevenBit ObjFacts VaFacts SliceFacts FileFacts.
+From Sbdf Require Import File PrimFacts SevenBit ObjFacts VaFacts SliceFacts MdFacts TmFacts FileFacts.
 
 (* the meaning of wspec for a fresh stream *)
 Theorem C13_meaning : forall (w : W unit) r bs budget, wspec w r bs -> 0 <= budget ->
@@ -58,6 +58,21 @@ Theorem C13_slices_and_end : forall swp sls ncols, slices_ok ncols sls ->
         (Ok tt) (enc_slices swp sls).
 Proof. exact wspec_slices. Qed.
 Print Assumptions C13_slices_and_end.
+
+Theorem C13_table_metadata : forall swp t names, tm_ok t -> fold_columns (tcols t) = Ok names ->
+  (forall n, In n names -> tentry_ok n) -> wspec (tm_write swp t) (Ok tt) (enc_tm swp t names).
+Proof. exact wspec_tm. Qed.
+Print Assumptions C13_table_metadata.
+
+(* the whole file: wherever the stream starts refusing bytes, the writing session fails there and
+   exactly the accepted prefix of the file has been handed over *)
+Theorem C13_file : forall swp meta sls names budget, wf_file meta sls names -> 0 <= budget < zlen (enc_file swp meta sls names) ->
+  exists e, wrun (write_table swp {| t_meta := meta; t_slices := map caller_ts sls |}) budget = (e, ztake budget (enc_file swp meta sls names)) /\ e <> SBDF_OK.
+Proof.
+  intros swp meta sls names budget W Hb.
+  destruct (wspec_run _ _ _ budget (wspec_file swp meta sls names W) ltac:(lia)) as [_ H2]. apply H2. lia.
+Qed.
+Print Assumptions C13_file.
 
 Example C13_nonvacuous :
   wrun (write_string false [104; 105]) 5 = (SBDF_ERROR_IO, [2; 0; 0; 0; 104]) /\ wrun (write_string false [104; 105]) 6 = (SBDF_OK, [2; 0; 0; 0; 104; 105]).
